@@ -187,7 +187,15 @@ impl<'a> G<'a> {
     pub fn string(&mut self, d: usize) -> String {
         let top = if d == 0 { 2 } else { 9 };
         match self.rng.below(top) {
-            0 => (*self.rng.pick(&["\"a\"", "\"b%c\"", "\"\"", "'x y'", "\"100%\""])).to_owned(),
+            0 => {
+                if self.rng.chance(1, 4) {
+                    // Luau / Lua 5.2+ escape spellings in a quoted string TOKEN (C07 finding F31: retain_lines keeps them)
+                    self.tag("luau-string-escape");
+                    (*self.rng.pick(&["\"\\x41\"", "\"\\u{48}i\"", "\"a\\z   b\"", "'\\x7a\\u{7A}'"])).to_owned()
+                } else {
+                    (*self.rng.pick(&["\"a\"", "\"b%c\"", "\"\"", "'x y'", "\"100%\""])).to_owned()
+                }
+            }
             1 => "T.s".to_owned(),
             2 | 3 | 4 => self.interp(d - 1),
             5 => {
@@ -222,7 +230,7 @@ impl<'a> G<'a> {
         self.tag("interpolated-string");
         let n = self.rng.below(4);
         let mut s = String::from("`");
-        let texts = ["a", "b ", "100% ", "%s", "%d%%", "\\{", "\\n", "'q\"", "\\t", "-", ""];
+        let texts = ["a", "b ", "100% ", "%s", "%d%%", "\\{", "\\n", "'q\"", "\\t", "-", "", "\\x41", "\\u{48}", "c\\z  d"];
         if n == 0 {
             // no value segment (possibly empty)
             if self.rng.chance(1, 2) {
